@@ -8,6 +8,8 @@ use std::sync::Arc;
 
 mod jitter;
 mod jitter_ref;
+mod jump;
+mod isaac_ref;
 mod serde_pos;
 #[cfg(feature = "send_sync_obligations")]
 mod send_sync;
@@ -20,6 +22,8 @@ fn main() {
     let code = match args.get(1).map(|s| s.as_str()) {
         Some("jitter") => jitter::main(&args[2..]),
         Some("serde-positions") => serde_pos::main(),
+        Some("jump") => jump::main(&args[2..]),
+        Some("isaac-diff") => isaac_ref::main(&args[2..]),
         _ => {
             eprintln!("usage: rngs-replay jitter <call> <script…>");
             2
